@@ -102,15 +102,63 @@ func cmdRun(fontID, casesPath, outPath string) {
 	out := vio.NewOut(outPath)
 	defer out.Close()
 
+	runCases := func(emit func(map[string]any), cold bool) {
+		for _, c := range cases {
+			rep := c.Repeat
+			if rep < 1 {
+				rep = 1
+			}
+			for r := 0; r < rep; r++ {
+				g := f
+				if c.Fresh || cold {
+					// a new instance of the same font value, never used before: nothing is warmed up
+					// (lazily built indexes would be built by the first concurrent calls)
+					if g, err = fs.build(); err != nil {
+						fatal(err)
+					}
+				}
+				runCase(g, fontID, c, cold, emit)
+			}
+		}
+	}
+
+	// Cold process (C16_COLD): the concurrent cases are the first thing this process does with the
+	// library (apart from reading the font), so that package-level state that is built lazily is
+	// built by concurrent calls.  The sequential phase follows; the events are written in the usual
+	// order (reset, seq, cases) and the cases are marked cold.
+	cold := os.Getenv("C16_COLD") != ""
+	var held []map[string]any
+	if cold {
+		runCases(func(e map[string]any) { held = append(held, e) }, true)
+	}
+
 	fp0, content0, nodes := measure2(f)
 	ops := allOps()
 	out.Emit(map[string]any{"ev": "reset", "font": fontID, "locs": sharedNames, "fp": fp0, "content": content0, "ops": ops,
 		"applicable": applicable(f), "nodes": nodes})
 
-	// V1: every applicable operation alone, with the footprint measured around it
+	// V1: the operations alone, with the footprint measured around each (C16_SEQOPS=cases: only
+	// the operations that occur in the cases of this process)
+	seqOps := ops
+	if os.Getenv("C16_SEQOPS") == "cases" {
+		used := map[string]bool{}
+		for _, c := range cases {
+			for _, p := range c.Prog {
+				for _, name := range p {
+					used[name] = true
+				}
+			}
+		}
+		seqOps = nil
+		for _, name := range ops {
+			if used[name] {
+				seqOps = append(seqOps, name)
+			}
+		}
+	}
 	reps := envInt("C16_REPS", 2)
 	for r := 0; r < reps; r++ {
-		for _, name := range ops {
+		for _, name := range seqOps {
 			op := findOp(name)
 			before, _ := measure(f)
 			d := call(op, f)
@@ -120,28 +168,18 @@ func cmdRun(fontID, casesPath, outPath string) {
 	}
 
 	// V2: TLC-generated schedules with real goroutines
-	for _, c := range cases {
-		rep := c.Repeat
-		if rep < 1 {
-			rep = 1
+	if cold {
+		for _, e := range held {
+			out.Emit(e)
 		}
-		for r := 0; r < rep; r++ {
-			g := f
-			if c.Fresh {
-				// a new instance of the same font value, never used before: nothing is warmed up
-				// (lazily built indexes would be built by the first concurrent calls)
-				if g, err = fs.build(); err != nil {
-					fatal(err)
-				}
-			}
-			runCase(g, fontID, c, out)
-		}
+	} else {
+		runCases(func(e map[string]any) { out.Emit(e) }, false)
 	}
 }
 
 // runCase replays one schedule: "S g" releases the next call of goroutine g, "F g" waits
 // until that call has returned.  Calls between their S and their F run in parallel.
-func runCase(f *sfnt.Font, fontID string, c Case, out *vio.Out) {
+func runCase(f *sfnt.Font, fontID string, c Case, cold bool, emit func(map[string]any)) {
 	n := len(c.Prog)
 	type ev struct {
 		start bool
@@ -171,8 +209,8 @@ func runCase(f *sfnt.Font, fontID string, c Case, out *vio.Out) {
 		}
 	}
 	before, content, _ := measure2(f)
-	out.Emit(map[string]any{"ev": "case", "font": fontID, "id": c.ID, "n": n, "prog": c.Prog, "sched": c.Sched,
-		"fresh": c.Fresh, "inst_fp": before, "inst_content": content})
+	emit(map[string]any{"ev": "case", "font": fontID, "id": c.ID, "n": n, "prog": c.Prog, "sched": c.Sched,
+		"fresh": c.Fresh || cold, "cold": cold, "inst_fp": before, "inst_content": content})
 
 	start := make([]chan struct{}, n)
 	done := make([]chan struct{}, n)
@@ -196,11 +234,11 @@ func runCase(f *sfnt.Font, fontID string, c Case, out *vio.Out) {
 
 	for g := 0; g < n; g++ {
 		for i, d := range digests[g] {
-			out.Emit(map[string]any{"ev": "conc", "font": fontID, "id": c.ID, "g": g + 1, "i": i + 1, "op": c.Prog[g][i], "digest": d})
+			emit(map[string]any{"ev": "conc", "font": fontID, "id": c.ID, "g": g + 1, "i": i + 1, "op": c.Prog[g][i], "digest": d})
 		}
 	}
 	after, _ := measure(f)
-	out.Emit(map[string]any{"ev": "end", "font": fontID, "id": c.ID, "before": before, "after": after})
+	emit(map[string]any{"ev": "end", "font": fontID, "id": c.ID, "before": before, "after": after})
 }
 
 // worker is one goroutine of a case: it performs its calls in order, each when released.
